@@ -940,7 +940,17 @@ pub fn load_path(vm: &Thread) -> Result<ExternModule> {
             extension => primitive!(1, std::path::prim::extension),
             join => primitive!(2, "std.path.prim.join", std::path::prim::join::<&Path>),
             with_file_name => primitive!(2, std::path::prim::with_file_name::<&Path>),
-            with_extension => primitive!(2, std::path::prim::with_extension::<&Path>),
+            with_extension => primitive!(2, "std.path.prim.with_extension", |p: &Path, ext: &Path| {
+                // `Path::with_extension` panics if the extension contains a path separator
+                if ext.to_string_lossy().chars().any(path::is_separator) {
+                    RuntimeResult::Panic(format!(
+                        "extension cannot contain path separators: {:?}",
+                        ext
+                    ))
+                } else {
+                    RuntimeResult::Return(p.with_extension(ext))
+                }
+            }),
             components => primitive!(1, "std.path.prim.components", |p: &Path| {
                 p.components()
                     .map(|c| match c {
